@@ -51,6 +51,10 @@ func init() {
 		"vSetField": hSetField,
 		"vGetField": hGetField,
 		"vIte":      hIte,
+		"vSchedBound": func(fr *frame, a []Value) Value {
+			fr.p.preemptBound = int(fr.p.concInt(a[0].(*Term)))
+			return nil
+		},
 		"vDone":     func(fr *frame, a []Value) Value { fr.p.abort(abortDone, "vDone"); return nil },
 	}
 }
